@@ -173,6 +173,16 @@ def build_unit(contract, case, contracts, world):
             st.env[p] = ip.make(ty, p, st)
         for p, ty in case.closure.items():
             st.env[p] = ip.make(ty, p, st)          # variables of the enclosing function a nested def refers to
+        def _parent_is_class():
+            # (a class may have a lower-case name: `histogram.add` is a method, not a nested def)
+            try:
+                return isinstance(find_function(modctx.tree, contract.qual.rsplit(".", 1)[0]), ast.ClassDef)
+            except KeyError:
+                return False
+        if "." in contract.qual and not contract.qual.split(".")[-2][:1].isupper() and fnnode.name not in st.env \
+                and not _parent_is_class():
+            # a nested def can call itself by its name (bound in the enclosing function's scope): through its contract
+            st.env[fnnode.name] = Fun("contract", contract=contract)
         for p in argnames:
             if p not in st.env:
                 u.error, u.error_kind = "parameter %s of the function has no type in the contract" % p, "stale-contract"
@@ -250,7 +260,9 @@ def check_normal_exit(ip, case, entry, st, res, selfv, cls_inv, contracts):
     elif case.result is not None:
         try:
             env["result"] = conform(ip, st, res, case.result)
-        except Mismatch:
+        except (Mismatch, Unsupported):
+            # (a value that cannot even be converted to the declared type -- e.g. a list of lists for Lst[Real] -- does
+            # not have it: the obligation is provable only if this path is infeasible)
             ip.emit("post", "result has declared type %s" % case.result, st, FALSE, {"got": repr(res)})
             return
     else:
@@ -273,6 +285,14 @@ def check_normal_exit(ip, case, entry, st, res, selfv, cls_inv, contracts):
     if case.result_alias is not None:
         ip.emit("post", "result is the parameter %s itself" % case.result_alias, st,
                 ip.py_is(st, res, entry.env[case.result_alias]) if isinstance(res, Ref) else FALSE)
+    for cl in getattr(case, "lemmas", []):
+        # Contract(lemmas=[...]): instances of PROVED lemmas about reference functions, made available to the proof of the
+        # postcondition.  A clause must be one application of a registered lemma function (contracts.lemma_functions):
+        # a specification function that returns an instance of a statement a Lemma unit proves for all arguments.
+        head = cl.split("(")[0].strip()
+        if head not in getattr(contracts, "lemma_functions", ()):
+            raise Unsupported("lemma clause `%s`: %s is not a registered lemma function" % (cl, head))
+        st.assume(eval_spec(ip, st, env, cl, old=entry))
     for k, cl in enumerate(case.ensures):
         ip.emit("post", "ensures#%d" % k, st, eval_spec(ip, st, env, cl, old=entry), {"clause": cl})
     for exc, cond in case.raises.items():
